@@ -112,7 +112,7 @@ Proof.
 Qed.
 
 (* DESIGN's hypothesis (optionals form a suffix of the non-variadic slots, one variadic at most, last) is a special
-   case: such signatures only admit fitting patterns whose variadic is last, which is all [fitsb] asks. *)
+   case: such signatures only have fitting patterns whose variadic is last, which is all [fitsb] asks. *)
 Corollary slots_roundtrip_wellshaped : forall sig args m,
   wellshaped sig = true -> fitsb sig args = true -> bind_slots sig (emit m args) = Some args.
 Proof. intros sig args m _. apply slots_roundtrip. Qed.
